@@ -57,6 +57,28 @@ def method_classes(case, m, sections=None):
     return out
 
 
+def split_padded(case):
+    """[case without the methods whose bundles the C side reads through a padded struct,
+    case with only those methods (or None)]: under the sanitizers such a call is a memory error
+    by itself (finding bundlePadding) and ends the run"""
+    import copy as _copy
+    rest, padded = _copy.deepcopy(case), _copy.deepcopy(case)
+    any_padded = False
+    for cc, keep_padded in ((rest, False), (padded, True)):
+        for f_ in cc["files"]:
+            for n_ in f_["nodes"]:
+                if n_["k"] == "interface":
+                    ms = []
+                    for m_ in n_["members"]:
+                        is_p = m_["k"] == "method" and "bundlePadding" in method_classes(case, m_)
+                        any_padded = any_padded or is_p
+                        if m_["k"] != "method" or is_p == keep_padded:
+                            ms.append(m_)
+                    n_["members"] = ms
+    padded["id"] = case["id"] + "-padded"
+    return rest, (padded if any_padded else None)
+
+
 KNOWN = {
     "C01": {"K01-embeddedObjOrder": "embeddedObjOrder", "K01-smallObjStruct": "smallObjStruct", "K01-ooBeforeOi": "ooBeforeOi",
             "K01-bundlePadding": "bundlePadding"},
@@ -80,6 +102,7 @@ def run(ctx, prop):
         cases.append(("witness", w))
     cases.append(("gen", gen.coverage_case(f"{prop}-coverage")))
     cases.append(("gen", gen.coverage_case2(f"{prop}-coverage2")))
+    cases.append(("gen", gen.coverage_case3(f"{prop}-coverage3")))
     for i in range(n):
         c = fix_for_cpp(gen.gen_case(ctx.rng, bench_opts(ctx.rng), cid=f"{prop}-{ctx.seed}-{i}"))
         cases.append(("gen", c))
@@ -92,23 +115,10 @@ def run(ctx, prop):
             if origin != "gen":
                 split.append((origin, case))
                 continue
-            import copy as _copy
-            rest, padded = _copy.deepcopy(case), _copy.deepcopy(case)
-            any_padded = False
-            for cc, keep_padded in ((rest, False), (padded, True)):
-                for f_ in cc["files"]:
-                    for n_ in f_["nodes"]:
-                        if n_["k"] == "interface":
-                            ms = []
-                            for m_ in n_["members"]:
-                                is_p = m_["k"] == "method" and "bundlePadding" in method_classes(case, m_)
-                                any_padded = any_padded or is_p
-                                if m_["k"] != "method" or is_p == keep_padded:
-                                    ms.append(m_)
-                            n_["members"] = ms
+            rest, padded = split_padded(case)
+            any_padded = padded is not None
             split.append((origin, rest))
             if any_padded and prop in ("C01", "C03"):
-                padded["id"] = case["id"] + "-padded"
                 split.append((origin, padded))
         cases = split
     for origin, case in cases:
